@@ -268,6 +268,20 @@ func canon(b []byte) string {
 	if err := dec.Decode(&v); err != nil {
 		return "!" + string(b)
 	}
+	// The one message of these responses that the LIBRARY words (a null in a
+	// non-null position) is compared by its presence, path and location, not by
+	// its wording: harness and library side both pass through here.
+	if m, ok := v.(map[string]interface{}); ok {
+		if errs, ok := m["errors"].([]interface{}); ok {
+			for _, e := range errs {
+				if em, ok := e.(map[string]interface{}); ok {
+					if msg, _ := em["message"].(string); strings.Contains(msg, "non-null") || strings.Contains(msg, "Cannot return null") {
+						em["message"] = "<null in a non-null position>"
+					}
+				}
+			}
+		}
+	}
 	out, err := json.Marshal(v)
 	if err != nil {
 		return "!" + string(b)
